@@ -37,6 +37,7 @@ type Rec struct {
 	shard       int
 	shards      int
 	idx         int64
+	ncase       int
 	Note        string
 }
 
@@ -62,8 +63,16 @@ func (r *Rec) Distinct(class string) {
 
 // Sample keeps a few actual cases for the evidence file.
 func (r *Rec) Sample(x any) {
-	if len(r.samples) < 4 {
+	if len(r.samples) < 6 {
 		r.samples = append(r.samples, x)
+	}
+}
+
+// SampleCase keeps the first few actual cases (as evaluated) for the evidence file.
+func (r *Rec) SampleCase(input string) {
+	if r.ncase < 3 {
+		r.ncase++
+		r.samples = append([]any{map[string]any{"actual_case": input}}, r.samples...)
 	}
 }
 
